@@ -131,3 +131,8 @@ pub open spec fn bool_text(b: bool) -> Seq<char> { if b { "true"@ } else { "fals
 /// `v[k..].to_vec()` (std slicing panics when k > len: the precondition)
 #[verifier::external_body]
 pub fn v_tail_vec(v: &Vec<String>, k: usize) -> (r: Vec<String>) requires k <= v@.len() ensures r@ == v@.subrange(k as int, v@.len() as int) { v[k..].to_vec() }
+// std functions small edits of the code tend to reach for (specifications as documented by std)
+pub assume_specification<T, E> [ Result::<T, E>::unwrap_or ] (r: Result<T, E>, default: T) -> (res: T)
+    ensures res == (match r { Ok(v) => v, Err(_) => default });
+pub assume_specification<T> [ Option::<T>::or ] (o: Option<T>, b: Option<T>) -> (res: Option<T>)
+    ensures res == (if o is Some { o } else { b });
